@@ -53,12 +53,16 @@ def main(tier):
     for g in sizes:
         path = gen_c09.make(g)
         ths = [None] if g <= 3 else [[3, 1], [-1, 2]]
-        for th in ths:
-            jobs.append(dict(path=path, fname='_c09_list', params={} if th is None else {'th': th}, timeout={1: 60, 2: 60, 3: 240, 4: 300, 5: 900, 6: 2400}[g],
+        for th, strict in [(t, None) for t in ths]:
+            prm = {} if th is None else {'th': th}
+            jobs.append(dict(path=path, fname='_c09_list', params=prm, timeout={1: 60, 2: 60, 3: 240, 4: 300, 5: 900, 6: 2400}[g],
                              twin='_c09_reach' if g >= 2 else None, twin_timeout=60,
-                             label=f'closest-list references={g}' + ('' if th is None else f' thresholds={th}'),
+                             label=f'closest-list references={g}' + ('' if th is None else f' thresholds={th}') + ('' if strict is None else f' strict={bool(strict)}'),
                              bounds={'references': g, 'distances': 'every order type incl. ties', 'report_closest': f'1..{g + 1}', 'unstable sort result': 'every sorting permutation',
-                                     'thresholds': 'symbolic (absent or any order type)' if th is None else th}))
+                                     'thresholds': 'symbolic (absent or any order type)' if th is None else th, 'classify_strict': 'both' if strict is None else bool(strict)}))
+    for g in ((2, 3) if tier == 'quick' else (2, 3, 4)):
+        jobs.append(dict(path=gen_c09.make(g), fname='_c09_strict', params={}, timeout=400 if g <= 3 else 2400, label=f'closest-list under strict classification references={g}',
+                         bounds={'references': g, 'distances': 'values 0..3 (all tie patterns)', 'thresholds': 'genus and species each absent / 1 / 2', 'report_closest': f'1..{g + 1}'}))
     contract_cex = []
 
     def key_of(job, res, detail):
@@ -79,6 +83,20 @@ def main(tier):
                 r['error'] = f'contract-level counterexample did not replay: {detail}'
             else:
                 ex = detail.get('explain') or {}
+                kinds = ex.get('argsort_kind_requested') if isinstance(ex, dict) else None
+                if xprop.stub_gap(detail):
+                    r['status'] = INCONCLUSIVE
+                    r['error'] = f'harness stub incomplete (not a verdict on the code): {detail.get("exception")}'
+                    run.obligations.append(r)
+                    run.inconclusive.append(r)
+                    continue
+                if kinds is not None and kinds and all(k in ('stable', 'mergesort') for k in kinds):
+                    # the code asked for a stable sort, so nothing in this counterexample depends on the sort contract:
+                    # it is an ordinary, already replayed violation
+                    rec = {'obligation': r['name'], 'harness': j['path'], 'call': call, 'params': j.get('params'), 'replay': detail}
+                    run.report_violation(f'closest-list/{j["fname"]}', f'{r["name"]}: {call} -> {ex}', rec)
+                    run.obligations.append(r)
+                    continue
                 if plat is None:
                     plat = platform_replay(ex.get('dists')) or False
                 if plat:
